@@ -286,6 +286,15 @@ func TestC06_Reuse(t *testing.T) {
 		default:
 			e = g.Expr(vals[0], 0)
 		}
+		escaped := rapid.IntRange(0, 4).Draw(t, "escaped-literals") == 0
+		if escaped {
+			// the expression carries literals of every syntax that need decoding
+			// (escapes); other texts with such literals are compiled and searched
+			// in between (whatever the decoder keeps must not leak from one
+			// compiled expression into another)
+			s1 := "e'" + gen.Str(t)
+			e = &ast.Chain{Head: ast.Head{Kind: ast.HMultiList, Items: []ast.Expr{e, ast.RawS(s1), ast.Lit(jv.VStr("q\"" + s1)), ast.RawS("back\\slash'" + s1)}}}
+		}
 		text := ast.Render(e)
 		if model.Static(e).RefAtValue && kfOpen("expref-at-value-position") {
 			c.Case()
@@ -308,6 +317,14 @@ func TestC06_Reuse(t *testing.T) {
 				}
 			case 0:
 				ops[i] = c06Op{Op: "oneshot", Doc: d, Expr: ast.Render(g.Expr(vals[d], 1))}
+				if escaped && rapid.Bool().Draw(t, "other-escaped") {
+					s2 := "o'" + gen.Str(t)
+					other := &ast.Chain{Head: ast.Head{Kind: ast.HMultiList, Items: []ast.Expr{ast.RawS(s2), ast.Lit(jv.VStr("p\"" + s2)), ast.RawS("slash\\back'" + s2)}}}
+					ops[i].Expr = ast.Render(other)
+					if rapid.Bool().Draw(t, "other-compiled") {
+						ops[i].Op = "mustcompile"
+					}
+				}
 			case 1:
 				ops[i] = c06Op{Op: "recompile", Doc: d}
 			case 2:
